@@ -193,6 +193,41 @@ impl<'a> Client<'a> {
                     break;
                 }
             }
+            // the same through the point-lookup path: gets of a few keys at the latest state and at
+            // every live snapshot must still return what the dumps before the operation showed
+            // (lookups pick files by binary search and filters, scans do not)
+            if !self.dead {
+                let snaps: Vec<Option<Snapshot>> = std::iter::once(None).chain(self.snaps.values().map(|(s, _)| Some(s.clone()))).collect();
+                let nk = self.plan.keys.len();
+                'gets: for (i, s) in snaps.into_iter().enumerate() {
+                    let Some(before_dump) = b.get(i) else { break };
+                    let before_map: Kv = before_dump.iter().cloned().collect();
+                    for j in 0..nk.min(6) {
+                        let key = self.plan.keys[(idx * 7 + i * 3 + j * 5) % nk].clone();
+                        let r = {
+                            let db = self.db.as_ref().unwrap();
+                            call("get", || get(db, s.clone(), &key))
+                        };
+                        with_out(self.out, |o| o.stats.gets += 1);
+                        match r {
+                            Called::Ok(Ok(v)) => {
+                                let want = before_map.get(&key).cloned();
+                                if v != want {
+                                    let at = if i == 0 { "the latest state".to_string() } else { format!("live snapshot #{}", i) };
+                                    let props: &[&str] = if i == 0 { &["C07", "C01"] } else { &["C07", "C03"] };
+                                    self.finding(Finding::new(props, "contents-changed", &format!("{}|get", what), format!("get({}) at {} = {} after {}, but the dump taken before it showed {}", show_key(&key), at, show_opt(&v), what, show_opt(&want)), Some(idx)));
+                                    break 'gets;
+                                }
+                            }
+                            Called::Ok(Err(_)) => {}
+                            Called::Panicked { .. } => {
+                                self.dead = true;
+                                break 'gets;
+                            }
+                        }
+                    }
+                }
+            }
             if let Some(d) = diff_kv(&a[0], &self.model) {
                 let model_before = diff_kv(&b[0], &self.model).is_none();
                 let props: &[&str] = if model_before { &["C01", "C07"] } else { &["C01"] };
